@@ -4,6 +4,7 @@ import os
 import pickle
 import sys
 import threading
+import time
 import warnings
 
 from hypothesis import strategies as st
@@ -52,6 +53,7 @@ def op_strategy(npool):
         st.tuples(st.just("join"), i, i),
         st.tuples(st.just("build_enc"), st.integers(0, 2), st.one_of(st.none(), st.integers(0, 5))),
         st.tuples(st.just("build"), st.integers(0, 2), st.one_of(st.none(), st.integers(0, 5))),
+        st.tuples(st.just("query_typed"), i, st.integers(0, 7), st.sampled_from(["tuple", "list", "dict"])),
         st.tuples(st.just("human_ui"), st.integers(0, len(UI_TEXTS) - 1), st.integers(0, len(UI_TEXTS) - 1)),
         st.tuples(st.just("eq"), i, i),
         st.tuples(st.just("cache_clear")),
@@ -123,6 +125,16 @@ def run_op(Y, pool, op):
                 kw["query"] = {"t": str(op[2]), "k": "v"}
             u = Y.URL.build(encoded=(k == "build_enc"), **kw)
             r = [str(u), u.raw_query_string, list(u.query.items()), u.raw_path_qs]
+        elif k == "query_typed":
+            # equal-by-value arguments of different types (1 == 1.0 == True, 0 == -0.0 == False) from different threads
+            fam = [[1, 1.0], [0, -0.0], [10 ** 20, 1e20], [2, 2.0]][op[2] % 4]
+            if op[2] >= 4:
+                fam = fam[::-1]  # which spelling comes first differs between threads
+            r = []
+            for v in fam:
+                pairs = (("page", v), ("z", "1"))
+                arg = pairs if op[3] == "tuple" else list(pairs) if op[3] == "list" else dict(pairs)
+                r.append(str(pool[op[1]].with_query(arg)))
         elif k == "human_ui":
             u = Y.URL.build(scheme="http", host="h.example", user=UI_TEXTS[op[1]], password=UI_TEXTS[op[2]], path="/" + UI_TEXTS[op[1]])
             h = u.human_repr()
@@ -251,9 +263,32 @@ def run_threads(Y, programs, driver, schedule):
         ts = [threading.Thread(target=body, args=(i,), daemon=True) for i in range(n)]
         for t in ts:
             t.start()
-        for t in ts:
-            t.join(120)
-        hung = any(t.is_alive() for t in ts)
+        hung = False
+        if driver == "free":
+            # a deadlock is told from slowness by CPU time: threads that are alive but consume (almost) no CPU over three
+            # consecutive 2-second windows are blocked, not slow (slowness is never a verdict)
+            import resource
+            t_end = time.time() + 600
+            idle = 0
+            while any(t.is_alive() for t in ts):
+                r0 = resource.getrusage(resource.RUSAGE_SELF)
+                for t in ts:
+                    t.join(2.0 / len(ts))
+                r1 = resource.getrusage(resource.RUSAGE_SELF)
+                if not any(t.is_alive() for t in ts):
+                    break
+                cpu = (r1.ru_utime + r1.ru_stime) - (r0.ru_utime + r0.ru_stime)
+                idle = idle + 1 if cpu < 0.02 else 0
+                if idle >= 3:
+                    hung = "deadlock"
+                    break
+                if time.time() > t_end:
+                    hung = "slow"
+                    break
+        else:
+            for t in ts:
+                t.join(120)
+            hung = "slow" if any(t.is_alive() for t in ts) else False
     finally:
         sys.setswitchinterval(old)
     return results, errors, pool, (baton.switches if baton else 0), hung
@@ -261,6 +296,9 @@ def run_threads(Y, programs, driver, schedule):
 
 def check_threads(ctx, backend, driver, programs, schedule, reps):
     Y = ctx.yarl(backend, "T")
+    if ctx.extra.get("deadlocked"):
+        ctx.case(False, label="skipped:after-deadlock")
+        return
     expected = sequential(Y, programs)
     touched = {}
     for t, prog in enumerate(programs):
@@ -274,8 +312,19 @@ def check_threads(ctx, backend, driver, programs, schedule, reps):
     for rep in range(reps):
         results, errors, pool, switches, hung = run_threads(Y, programs, driver, schedule)
         total_switches += switches
+        if hung == "deadlock":
+            # the private copy of the package is poisoned (blocked daemon threads may hold its locks): nothing more is run on it in this shard
+            ctx.extra["deadlocked"] = True
+            stacks = []
+            for tid_, fr in sys._current_frames().items():
+                if fr.f_code.co_filename.startswith(os.path.dirname(Y.url.__file__)) or (fr.f_back is not None and fr.f_back.f_code.co_filename.startswith(os.path.dirname(Y.url.__file__))):
+                    stacks.append("%s:%d %s" % (os.path.basename(fr.f_code.co_filename), fr.f_lineno, fr.f_code.co_name))
+            ctx.check(False, "threads block each other forever (no CPU is consumed, no thread finishes): deadlock", observed={"blocked_at": sorted(stacks)[:8], "rep": rep}, expected="every thread finishes", entry=driver)
+            return
         if hung:
-            ctx.errors.append("thread run hung (scheduler problem), case %s" % json.dumps(jsonable(programs))[:500])
+            # not a verdict (a time budget is never one) - but threads that are still alive may hold state of the private copy, so it is not used again
+            ctx.extra["deadlocked"] = True
+            ctx.errors.append("thread run did not finish in time (inconclusive; driver %s), case %s" % (driver, json.dumps(jsonable(programs))[:500]))
             return
         if not ctx.check(not errors, "a thread died with an exception outside an operation", observed=errors, expected="none", entry=driver):
             break
